@@ -24,8 +24,7 @@ This is the code AFTER the C14 `fix:` commits (see known_findings.d/C14.json):
 implicit 'now' (zero-argument date/time functions and format-only strftime) is
 pinned; the clock is read once per statement; ORDER BY nesting is a depth, not a
 flag; CTE bodies and SELECT expressions are walked (the recorded tree contains
-them as children of `WithClause` / `SelectExpr`); randomblob accepts hexadecimal
-literals; the pre-filter accepts whitespace, comments and closing quotes between
+them as children of `WithClause` / `SelectExpr`); randomblob's literal argument is read as SQLite reads it (sign, hexadecimal two's complement, float); the pre-filter accepts whitespace, comments and closing quotes between
 a function name and its parenthesis.
 -/
 import RqModel.Model.Util
@@ -144,26 +143,72 @@ def floatBytes (cs : List Char) : Option Nat := do
     let d := 10 ^ (-e).toNat
     if m ≤ maxBlobLength * d then some (m / d) else none
 
-/-- the byte count `Visit` derives from the NumberLit argument of randomblob, `none` = the call is
-left alone. Transcribed from processor.go:
-  `n, err := strconv.Atoi(v)` (decimal digits, value within int64);
-  else `strconv.ParseInt(v, 0, 64)` with a `0x` prefix (value within int64);
-  else `strconv.ParseFloat(v, 64)` with `f <= maxBlobLength`, `n = int(f)`; else leave alone;
-  then `if n > maxBlobLength` leave alone (SQLite rejects such a blob on every node alike). -/
-def blobLen (v : String) : Option Nat :=
-  let cs := v.toList
-  let n : Option Nat :=
-    match (if cs.isEmpty then none else digitsVal cs) with
-    | some n => if n ≤ int64Max then some n else floatBytes cs   -- Atoi range error: falls to ParseFloat
-    | none =>
-      match cs with
-      | '0' :: 'x' :: hs => (parseHex hs).bind fun h => if h ≤ int64Max then some h else none
-      | '0' :: 'X' :: hs => (parseHex hs).bind fun h => if h ≤ int64Max then some h else none
-      | _ => floatBytes cs
-  n.bind fun n => if n > maxBlobLength then none else some n
+/-- what randomblob does with a length SQLite has read as the integer `z`: more than the maximum is an
+error on every node (`none`: the call is left alone), less than 1 is ONE byte -/
+def bytesOf (z : Int) : Option Nat :=
+  if z > (maxBlobLength : Int) then none else if z < 1 then some 1 else some z.toNat
 
-/-- kept under its old name for the proofs: the literal is one the rewriter replaces -/
-def parseIntLit (v : String) : Option Nat := blobLen v
+/-- `blobLength` of processor.go on a number literal `v` under an optional minus sign: the number of
+bytes SQLite's randomblob produces, `none` = the call is left alone.
+  decimal digits within int64                → that integer
+  `0x…` with a value below 2^64              → the two's-complement int64 (as SQLite reads it);
+                                               `-0x8000000000000000` is left alone (SQLite rejects it)
+  otherwise a decimal floating point literal → negative or below 1: one byte; up to the maximum: its
+                                               integer part; above: left alone
+(the float comparison is exact here, Go compares the nearest double) -/
+def blobBytes (neg : Bool) (v : String) : Option Nat :=
+  let cs := v.toList
+  let sgn (z : Int) : Int := if neg then -z else z
+  let floatCase : Option Nat :=
+    match parseDecimal cs with
+    | none => none
+    | some (m, e) =>
+      if neg then some 1
+      else if e ≥ 0 then
+        let x := m * 10 ^ e.toNat
+        if x < 1 then some 1 else if x ≤ maxBlobLength then some x else none
+      else
+        let d := 10 ^ (-e).toNat
+        if m < d then some 1 else if m ≤ maxBlobLength * d then some (m / d) else none
+  let hexCase (hs : List Char) : Option Nat :=
+    match parseHex hs with
+    | none => none
+    | some u =>
+      if u ≥ 18446744073709551616 then none
+      else
+        let z : Int := if u ≥ 9223372036854775808 then (u : Int) - 18446744073709551616 else (u : Int)
+        if neg && z == -9223372036854775808 then none else bytesOf (sgn z)
+  match (if cs.isEmpty then none else digitsVal cs) with
+  | some n => if n ≤ int64Max then bytesOf (sgn (n : Int)) else floatCase
+  | none =>
+    match cs with
+    | '0' :: 'x' :: hs => hexCase hs
+    | '0' :: 'X' :: hs => hexCase hs
+    | _ => floatCase
+
+def litNumber : Node → Option String
+  | .lit k v => if k = "number" then some v else none
+  | _ => none
+
+/-- a number literal, or one under a unary minus / plus: (negated?, literal text) -/
+def signedLit : Node → Option (Bool × String)
+  | .lit k v => if k = "number" then some (false, v) else none
+  | .other tag (.cons x .nil) =>
+    if tag = "UnaryExpr:-" then (litNumber x).map fun v => (true, v)
+    else if tag = "UnaryExpr:+" then (litNumber x).map fun v => (false, v)
+    else none
+  | _ => none
+
+/-- the argument of randomblob when it is a literal -/
+def blobArg : Nodes → Option (Bool × String)
+  | .cons x .nil => signedLit x
+  | _ => none
+
+/-- the length the rewriter pins for randomblob's arguments, if it does -/
+def blobLenOfArgs (args : Nodes) : Option Nat :=
+  match blobArg args with
+  | some (neg, v) => blobBytes neg v
+  | none => none
 
 /-- replace the first / second argument when it is `now` -/
 def replNow0 (c : Cfg) : Nodes → Nodes
@@ -229,12 +274,9 @@ def visitCall (c : Cfg) (st : St) (name : String) (args : Nodes) : Action :=
     else .keep .none st
   | .randomblob =>
     if st.ordered == 0 && c.rwRand then
-      match args with
-      | .cons (.lit "number" v) .nil =>
-        match parseIntLit v with
-        | some n => .replace (.lit "randblob" (toString (max n 1))) { st with modified := true }
-        | none => .keep .none st
-      | _ => .keep .none st
+      match blobLenOfArgs args with
+      | some n => .replace (.lit "randblob" (toString n)) { st with modified := true }
+      | none => .keep .none st
     else .keep .none st
   | .other => .keep .none st
 
